@@ -88,6 +88,7 @@ class RefServer:
         self.sessions = []
         self.health = "up"      # up | refused | timeout | reset  (used by FakeNet.connect / recv)
         self.verbosity = 0
+        self.refuse_set = set()   # wire keys for which 'set' answers NOT_STORED (protocol.txt allows it)
 
     # -- store helpers ------------------------------------------------------
     def _abs_exp(self, exptime):
@@ -139,6 +140,8 @@ class RefServer:
                 return b"SERVER_ERROR object too large for cache\r\n", False
             it = self._live(key)
             if v == b"set":
+                if key in self.refuse_set:
+                    return b"NOT_STORED\r\n", False
                 self.store[key] = Item(c.data, c.flags, self._abs_exp(c.exptime), self._next_cas())
                 return b"STORED\r\n", False
             if v == b"add":
